@@ -12,7 +12,7 @@ from nutree import Tree
 
 LEVEL = "proof"
 TRUSTED = ["json.dumps/json.loads are the identity on the structure (ids are ints or strs)", "user mappers are parameters (a pair of inverse mappers over value-equality objects)"]
-ASSUMPTIONS = []
+ASSUMPTIONS = ["mapper pairs that rename keys (style renamed-id) are checked by the property's oracle on the implementation only; the model's mappers add fields"]
 
 
 def mirror(node, pool, mapper_on):
@@ -28,19 +28,48 @@ def mirror(node, pool, mapper_on):
     return d
 
 
-def one_tree(ctx, out, spec, objs, via_json):
+def rename_id(d):
+    d = dict(d)
+    if "data_id" in d:
+        d["guid"] = d.pop("data_id")
+    if "children" in d:
+        d["children"] = [rename_id(c) for c in d["children"]]
+    return d
+
+
+def one_tree(ctx, out, spec, objs, via_json, style="inplace"):
+    """style of the mapper pair: `inplace` (edits the dict it is given, returns it or None), `fresh` (returns a NEW dict),
+    `renamed-id` (fresh, and stores the data_id under its own key `guid`; the inverse mapper writes item['data_id'] back —
+    "mapper may add item['data_id']", Node.from_dict)"""
     pool = ctx.pool
     m = S.Mappers(pool)
     tree = adapter.build(spec, pool)
-    case = dict(spec=spec, objs=objs, via_json=via_json)
+    case = dict(spec=spec, objs=objs, via_json=via_json, style=style)
     before = S.tree_shape(tree, pool)
-    kw = {"mapper": m.ser} if objs else {}
+
+    def ser_fresh(node, data):
+        d = {k: data[k] for k in ("data", "data_id") if k in data}   # built from the documented keys only
+        r = m.ser(node, d) if objs else None
+        d = dict(r if r is not None else d)
+        if style == "renamed-id" and "data_id" in d:
+            d["guid"] = d.pop("data_id")
+        return d
+
+    def deser_item(parent, item):
+        if "guid" in item:
+            item["data_id"] = item["guid"]
+        return m.deser(parent, item)
+
+    use_mapper = objs or style != "inplace"
+    kw = {"mapper": (m.ser if style == "inplace" else ser_fresh)} if use_mapper else {}
     try:
         dl = tree.to_dict_list(**kw)
     except Exception as e:  # noqa
         out.fail(case, f"to_dict_list() raised {e!r} for tree {spec}")
         return
     want = [mirror(c, pool, objs) for c in tree.children]
+    if style == "renamed-id":
+        want = [rename_id(c) for c in want]
     if dl != want:
         out.fail(case, f"to_dict_list() = {json.dumps(dl)[:300]}, documented mirror {json.dumps(want)[:300]}", impl=dl, spec=want)
     if S.tree_shape(tree, pool) != before:
@@ -48,11 +77,11 @@ def one_tree(ctx, out, spec, objs, via_json):
     ser = adapter.Serials()
     tj = adapter.tree_json(tree, ser, pool)
     md = ctx.driver.ask({"op": "ser.todict", "t": tj, "ser": (m.ser_table(tree, ser) if objs else {})})
-    if md.get("ok") != dl:
+    if style != "renamed-id" and md.get("ok") != dl:
         out.disagree(case, f"model to_dict_list differs: {json.dumps(md.get('ok'))[:300]} vs {json.dumps(dl)[:300]}")
     obj = json.loads(json.dumps(dl)) if via_json else dl
     try:
-        t2 = Tree.from_dict(obj, **({"mapper": m.deser} if objs else {}))
+        t2 = Tree.from_dict(obj, **({"mapper": (m.deser if style == "inplace" else deser_item)} if use_mapper else {}))
         after = S.tree_shape(t2, pool)
         groups = S.clone_groups(t2)
     except Exception as e:  # noqa
@@ -62,7 +91,9 @@ def one_tree(ctx, out, spec, objs, via_json):
         out.fail(case, f"from_dict(to_dict_list(tree)) = {after}, tree is {before}", impl=after, spec=before)
     elif groups != S.clone_groups(tree):
         out.fail(case, f"clone groups differ: {groups} vs {S.clone_groups(tree)}")
-    ml = ctx.driver.ask({"op": "ser.fromdict", "doc": obj, "deser": ("o" if objs else "none")})
+    if style == "renamed-id":
+        return    # the model's mappers cannot rename keys: oracle only
+    ml = ctx.driver.ask({"op": "ser.fromdict", "doc": obj, "deser": ("o" if use_mapper else "none")})
     mres = S.model_shape(ml["ok"]) if "ok" in ml else "err:" + ml.get("err", "?")
     if isinstance(after, list) and mres != after:
         out.disagree(case, f"model from_dict {mres} vs implementation {after}")
@@ -87,9 +118,11 @@ def run(ctx):
         objs = k % 2 == 1
         labels = S.STRS[:4] + (S.OBJ if objs else [])
         spec = S.random_label_spec(rng, rng.randrange(2, 14), labels, False, explicit=0.3)
-        one_tree(ctx, out, spec, objs, k % 3 != 0)
-        out.count((repr(spec), objs, k % 3 != 0), gen.spec_size(spec) >= 3)
+        style = ("inplace", "fresh", "renamed-id", "inplace")[(k // 2) % 4]
+        one_tree(ctx, out, spec, objs, k % 3 != 0, style)
+        out.count((repr(spec), objs, k % 3 != 0, style), gen.spec_size(spec) >= 3)
         out.dist["objs" if objs else "strs"] += 1
+        out.dist["mapper_style:" + style] += 1
         if k < 3:
             out.sample(dict(tree=spec, objs=objs))
     # emptied trees
@@ -118,5 +151,5 @@ def replay(ctx, rp):
     out = core.Outcome()
     if case.get("kind") == "emptied":
         return dict(note="tree emptied by " + case["how"], property_holds=False)
-    one_tree(ctx, out, tuplify_d(case["spec"]), case["objs"], case["via_json"])
+    one_tree(ctx, out, tuplify_d(case["spec"]), case["objs"], case["via_json"], case.get("style", "inplace"))
     return dict(failures=[f["what"] for f in out.oracle_failures[:4]], property_holds=not out.oracle_failures)
